@@ -328,13 +328,29 @@ func (p *Path) symBitop(op token.Token, x, y value, t types.Type) value {
 		x, y = y, x
 	}
 	yc, ok := y.(int64)
-	if !ok {
-		unsup("bit operation on two symbolic operands")
-	}
 	xs := x.(*Sym)
 	xl, xh := p.ivOf(xs)
-	if xl == nil || xl.Sign() < 0 {
-		unsup("bit operation on possibly negative symbolic operand")
+	if !ok || xl == nil || xl.Sign() < 0 {
+		// general case through bit-vectors of the type's width
+		bits, signed := intInfo(t)
+		bv := func(v value) string { return "((_ int2bv " + itoa(int(bits)) + ") " + tInt(v) + ")" }
+		opn := map[token.Token]string{token.AND: "bvand", token.OR: "bvor", token.XOR: "bvxor"}[op]
+		yt := bv(y)
+		if op == token.AND_NOT {
+			opn = "bvand"
+			yt = "(bvnot " + yt + ")"
+		}
+		r := "(bv2nat (" + opn + " " + bv(x) + " " + yt + "))"
+		lo, hi := typeRange(bits, false)
+		res := &Sym{sort: SInt, e: r, lo: lo, hi: hi}
+		if signed {
+			// reinterpret as two's complement
+			half := new(big.Int).Lsh(bigOne, bits-1)
+			mod := new(big.Int).Lsh(bigOne, bits)
+			slo, shi := typeRange(bits, true)
+			return &Sym{sort: SInt, e: "(ite (>= " + r + " " + half.String() + ") (- " + r + " " + mod.String() + ") " + r + ")", lo: slo, hi: shi}
+		}
+		return res
 	}
 	nb := 64
 	if xh != nil {
